@@ -260,6 +260,79 @@ def scenario_traces(name: str, steps: int, seed: int) -> List[Dict[str, Any]]:
     return out
 
 
+def tour_traces(facet: str, seed: int, chk) -> List[Dict[str, Any]]:
+    """Transition tour of spec/Lifecycle.tla (every operation at every reachable power x component state) through the
+    environment, every software item and folder of the target node followed by a Track."""
+    from primaite.session.environment import PrimaiteGymEnv
+
+    from . import tour
+
+    g = tour.graph(facet)
+    eps, st = tour.tour(g, random.Random(seed), episode_len=300)
+    chk.add_mc(f"Lifecycle({facet})", g["tlc"])
+    chk.cov[f"tour_{facet}"] = st
+    cfg, idx = tour.scenario(facet)
+    cfg.setdefault("io_settings", {}).update({"save_agent_actions": False, "save_step_metadata": False, "save_pcap_logs": False,
+                                              "save_sys_logs": False, "save_agent_logs": False})
+    env = PrimaiteGymEnv(env_config=cfg)
+    out: List[Dict[str, Any]] = []
+    tnode = tour.TARGET[facet][0]
+    follow = {"svc": ("database-service", "web-server"), "app": ("web-browser", "database-client")}[facet]
+    for ei, ep in enumerate(eps):
+        REC.detach_all()
+        env.reset(seed=seed + ei)
+        node = env.game.simulation.network.get_node_by_hostname(tnode)
+        live: Dict[str, Track] = {}
+        finished: List[Track] = []
+
+        def rebind():
+            # a track follows one software OBJECT: an uninstalled item's track ends, a newly installed one gets its own
+            for name in follow:
+                sw = node.software_manager.software.get(name)
+                tr = live.get(name)
+                if tr is not None and tr.sw is not sw:
+                    REC.tracks.remove(tr)
+                    REC.by_sw.get(id(tr.sw), [tr]).remove(tr) if tr in REC.by_sw.get(id(tr.sw), []) else None
+                    finished.append(live.pop(name))
+                    tr = None
+                if tr is None and sw is not None:
+                    live[name] = Track(node, sw=sw, meta={"scale": f"tour:{facet}", "item": f"{tnode}/{name}", "kind": "software"})
+                    REC.attach(live[name])
+
+        rebind()
+        ftracks = []
+        for fo in node.file_system.folders.values():
+            if fo.name not in ("database", "downloads"):
+                continue
+            names = [f.name for f in fo.files.values()] or [None]
+            ftracks.append(Track(node, folder=fo.name, files=(names[0], names[1] if len(names) > 1 else None),
+                                 meta={"scale": f"tour:{facet}", "item": f"{tnode}/{fo.name}/{names[0]}", "kind": "folder"}))
+        for t in ftracks:
+            REC.attach(t)
+        err = None
+        done = []
+        try:
+            for a in ep:
+                if a == "red-compromise":
+                    tour.compromise(env.game, facet)
+                done.append(a)
+                env.step(idx[a])
+                rebind()
+        except Exception as e:  # noqa
+            err = repr(e)
+        REC.detach_all()
+        for t in finished + list(live.values()) + ftracks:
+            if err:
+                t.meta["episode_exception"] = err
+            if len(t.ev) >= 2:
+                out.append(t.trace({"scenario": f"tour:{facet}", "episode": ei, "actions": done}))
+    try:
+        env.close()
+    except Exception:  # noqa
+        pass
+    return out
+
+
 # ---------------------------------------------------------------------------------------------
 
 PRIORITY = ["NoError", "KnownEvent", "NoStrayWrites", "SwActualOnlyByEvent", "FileHealthOnlyByEvent", "SwVisibleOnlyByScan",
@@ -413,6 +486,8 @@ def main(tier: str, seed: int) -> int:
     straces: List[Dict[str, Any]] = []
     for name, steps, sd in runs:
         straces += scenario_traces(name, steps, sd)
+    for facet in ("svc", "app"):
+        straces += tour_traces(facet, seed, chk)
     sres = tlc.validate("HealthTrace", straces, chunk=40)
     common.judge_traces(chk, "Health", straces, sres, sig_fn, label="scenario")
     # ---- evidence ---------------------------------------------------------------------------------------
